@@ -148,6 +148,36 @@ fn gen_scenario(check: &str, seed: u64, run: u64) -> Scenario {
         let (p, _) = gen_segment(seed, run, 2000 + t as u64, &o, kind, vars, Some(&model), len);
         threads.push(p);
     }
+    // histories that matter for weak cache entries and reference counts under concurrency:
+    // compute, drop, compute the same again (the result's node dies and may be collected
+    // or revived in between), beside threads that do nothing but collect
+    if rng.chance(1, 2) {
+        for t in threads.iter_mut() {
+            let mut out = vec![];
+            for ins in t.iter() {
+                out.push(ins.clone());
+                let dest = match ins {
+                    Instr::Bin { d, .. } | Instr::Ite { d, .. } | Instr::NBin { d, .. } | Instr::TBin { d, .. } | Instr::ZBin { d, .. }
+                    | Instr::Quantify { d, .. } | Instr::ApplyQuant { d, .. } | Instr::Subst { d, .. } | Instr::Not { d, .. } => Some(*d),
+                    _ => None,
+                };
+                if let Some(d) = dest {
+                    if !ins.operands().contains(&d) && rng.chance(2, 3) {
+                        let reps = rng.range(1, 2);
+                        for _ in 0..reps {
+                            out.push(Instr::Drop { a: d });
+                            out.push(ins.clone());
+                        }
+                    }
+                }
+            }
+            *t = out;
+        }
+    }
+    if rng.chance(1, 2) {
+        let k = rng.range(2, 6) as usize;
+        threads.push(vec![Instr::Gc; k]);
+    }
     let mut exclusive = vec![];
     if pf.exclusive && rng.chance(1, 2) && kind != Kind::Zbdd && capacity == 1 << 16 {
         let k = rng.range(1, 3);
